@@ -1,6 +1,6 @@
 (* Run/C13.v — executable comparator for the C13 correspondence. *)
 From Coq Require Import List NArith ZArith Bool.
-From Cedar Require Import Lib.Bytes gen.Consts Model.Msg Model.Decode Model.Sinful Model.Version Model.Addr.
+From Cedar Require Import Lib.Bytes gen.Consts Model.Msg Model.Decode Model.Sinful Model.Version Model.Addr gen.FactsC13 Model.PassSock Model.Watch.
 Import ListNotations.
 Local Open Scope N_scope.
 
@@ -33,7 +33,16 @@ Inductive case :=
 | CCcbSplit (s : bytes) (ok : bool) (broker id : bytes) (nested : bool)   (* SplitCCBContact + BrokerIsCCB(broker) *)
 | CBrokerList (s : bytes) (out : list bytes)                  (* ccb.SplitBrokerList *)
 | CFlat (s : bytes) (ok : bool) (entry id route : bytes)      (* ccb.splitFlatEntryAndRoute *)
-| CContact (b : bytes) (n : N) (out : bytes) (ok : bool) (rb rid : bytes). (* ContactString, then SplitCCBContact of it *)
+| CContact (b : bytes) (n : N) (out : bytes) (ok : bool) (rb rid : bytes)  (* ContactString, then SplitCCBContact of it *)
+(* Model/PassSock.v: readPassSockHeader on an in-memory stream (class 0 ok, 1 short read, 4 other error,
+   9 panic; bytes consumed), and the bytes writePassSockHeader produces *)
+| CPassSock (inp : bytes) (cls consumed : N)
+| CPassSockWrite (out : bytes)
+(* Model/Watch.v: the ad is given by the results of its EvaluateAttr* lookups *)
+| CWatchReq (adtype constraint cursor : option bytes) (ok : bool) (t c cur : bytes)
+| CWatchHdr (kind : option Z) (key cursor : option bytes) (ok : bool) (k : Z) (key' cur' : bytes)
+| CWatchEncReq (adtype constraint cursor : bytes) (t' c' cur' : option bytes)
+| CWatchEncHdr (kind : Z) (key cursor : option bytes) (k' : option Z) (key' cur' : option bytes).
 
 (* compact descriptors for long test inputs (case files stay small) *)
 Definition rep (b : N) (n : N) : bytes := repeat (n2b b) (N.to_nat n).
@@ -195,6 +204,9 @@ Fixpoint all2 {A B} (f : A -> B -> bool) (a : list A) (b : list B) : bool :=
   | _, _ => false
   end.
 
+Definition opt_eqb (a b : option bytes) : bool :=
+  match a, b with Some x, Some y => bytes_eqb x y | None, None => true | _, _ => false end.
+
 Definition check_case (c : case) : bool :=
   match c with
   | CMsg enc data lens le ops => run_ops enc (reader_of (cut_frames data lens le)) ops
@@ -264,6 +276,30 @@ Definition check_case (c : case) : bool :=
          | Some None => negb ok
          | Some (Some (b', i)) => ok && bytes_eqb b' rb && bytes_eqb i rid
          end
+  | CPassSock inp cls consumed =>
+      let '(res, st) := read_pass_sock_header inp in
+      (match res with PsOk => 0 | PsErr PsShort => 1 | PsErr _ => 4 | PsPanic => 9 end =? cls)
+      && (lenN inp - lenN (ps_in st) =? consumed)
+  | CPassSockWrite out => bytes_eqb write_pass_sock_header out
+  | CWatchReq adtype constraint cursor ok t c cur =>
+      match decode_request {| wa_type := adtype; wa_constraint := constraint; wa_cursor := cursor |} with
+      | WOk (t', c', cur') => ok && bytes_eqb t' t && bytes_eqb c' c && bytes_eqb cur' cur
+      | WErr => negb ok
+      | WPanic => false
+      end
+  | CWatchHdr kind key cursor ok k key' cur' =>
+      match decode_header {| wh_kind := kind; wh_key := key; wh_cursor := cursor |} with
+      | WOk (k0, key0, cur0) => ok && Z.eqb k0 k && bytes_eqb key0 key' && bytes_eqb cur0 cur'
+      | WErr => negb ok
+      | WPanic => false
+      end
+  | CWatchEncReq adtype constraint cursor t' c' cur' =>
+      let ad := encode_request adtype constraint cursor in
+      opt_eqb (wa_type ad) t' && opt_eqb (wa_constraint ad) c' && opt_eqb (wa_cursor ad) cur'
+  | CWatchEncHdr kind key cursor k' key' cur' =>
+      let ad := encode_header kind key cursor in
+      match wh_kind ad, k' with Some a, Some b => Z.eqb a b | None, None => true | _, _ => false end
+      && opt_eqb (wh_key ad) key' && opt_eqb (wh_cursor ad) cur'
   end.
 
 Fixpoint mism (i : nat) (cs : list case) : list nat :=
